@@ -25,13 +25,13 @@ theorem runEffs_fails (l : List Eff) (st : RState) : (runEffs l st).2 = effsFail
 
 theorem hookList_before (hooks : List Hook) : hookList "before_request" hooks = enumFrom 0 hooks := by
   unfold hookList
-  have : ((Gen.hookReversed.find? (·.1 == "before_request")).map (·.2)).getD false = false := by decide
+  have : ((Gen.wsgiHookReversed.find? (·.1 == "before_request")).map (·.2)).getD false = false := by decide
   rw [this]; rfl
 
 theorem hookList_after (hooks : List Hook) :
     hookList "after_request" hooks = (enumFrom 0 hooks).reverse := by
   unfold hookList
-  have : ((Gen.hookReversed.find? (·.1 == "after_request")).map (·.2)).getD false = true := by decide
+  have : ((Gen.wsgiHookReversed.find? (·.1 == "after_request")).map (·.2)).getD false = true := by decide
   rw [this]; rfl
 
 /-- the before-hooks that run, and whether routing is reached -/
